@@ -9,7 +9,9 @@ import (
 	"errors"
 	"fmt"
 	"os"
+	"sort"
 	"strconv"
+	"strings"
 
 	"github.com/ava-labs/hypersdk/internal/executor"
 	"github.com/ava-labs/hypersdk/internal/vshim/evid"
@@ -223,13 +225,18 @@ func build(sc scenario) (func(), func(out *vsched.Outcome) (string, string)) {
 		for _, m := range o.mons {
 			// order of conflicting entries only (reads commute)
 			lastSig += fmt.Sprint(m.Conflict, "|")
+			// the SET of ordered conflicting pairs: the position of two reads relative to each other
+			// must not show (the happens-before pruning rightly merges such executions)
+			var pairs []string
 			for a := 0; a < len(m.Log); a++ {
 				for b := a + 1; b < len(m.Log); b++ {
 					if m.Log[a].Write || m.Log[b].Write {
-						lastSig += fmt.Sprint(m.Log[a].Tag, "<", m.Log[b].Tag, ",")
+						pairs = append(pairs, fmt.Sprint(m.Log[a].Tag, "<", m.Log[b].Tag))
 					}
 				}
 			}
+			sort.Strings(pairs)
+			lastSig += strings.Join(pairs, ",")
 		}
 		return k, w
 	}
